@@ -644,6 +644,19 @@ func OpaqueGlob(pattern string) []string { m, _ := filepath.Glob(pattern); retur
 //@   checks[C12,C16] a-difference-is-never-forgotten: implies(old(failed), failed)
 //@   checks[C12,C16] a-difference-is-recorded: implies(called(processRegexForCompare) && resultOf(processRegexForCompare, 0) != nil && called(Is) && resultOf(Is, 0), failed)
 
+// format --all: whatever happens with one assembly file (unformatted in check mode, a
+// formatting error, an unreadable file), the walk goes on to the next one - every file
+// gets exactly the treatment a single invocation would give it - and the failure is
+// remembered for the final verdict.
+//@ contract processAll#0
+//@   tags C08 C16 C09
+//@   results r
+//@   modifies fsWrites
+//@   checks[C08] one-file-never-stops-the-walk: implies(called(processFile), r == nil)
+//@   checks[C08,C15] only-ra-files: implies(called(processFile), resultOf(Ext, 0) == ".ra" && argOf(processFile, 0) == filePath && argOf(processFile, 2) == checkOnly)
+//@   checks[C16,C09] a-failure-is-never-forgotten: implies(old(failed), failed)
+//@   checks[C16,C09] a-failure-is-recorded: implies(called(processFile) && resultOf(processFile, 0) != nil, failed)
+
 // ---- C20: the running version handed to the updater must be comparable -------------------------
 // (a development build hands in "dev", which Release.LessOrEqual cannot parse)
 //@ contract createSelfUpdateCommand#0
